@@ -444,8 +444,47 @@ pub fn run_one(run: usize, gen: &mut Gen, len: usize, out: &mut Out) {
     run_one_via(run, gen, len, &["direct"], out)
 }
 
+/// Commands that name an absolute Unix time.  The node's start epoch `e_ms` (ms, possibly with a sub-second
+/// part) maps it to the virtual clock: deadline = t_ms - e_ms.  They are handed to the model as the
+/// relative commands they are equivalent to (EXPIRE with ms = deadline - now, SET .. PX), so the arithmetic
+/// is done twice, independently.
+fn abs_command(gen: &mut Gen, now: u64, e_ms: i64) -> (Value, Argv) {
+    let k = gen.key();
+    let kb = k.clone().into_bytes();
+    // a deadline on the virtual clock: past, now, or up to ~100 s ahead, not aligned to seconds
+    let dl: i64 = now as i64 + [-5000i64, 0, 1, 999, 1000, 1500, 9250, 60_000, 100_001][gen.rng.gen_range(0..9)];
+    let abs_ms = dl + e_ms;
+    match gen.rng.gen_range(0..6) {
+        0 | 1 => {
+            // EXPIREAT takes seconds: only whole seconds can be named
+            let ts = abs_ms.div_euclid(1000);
+            let dl_s = ts * 1000 - e_ms;
+            (json!({"op": "EXPIRE", "k": k, "ms": dl_s - now as i64, "nx": false, "xx": false, "gt": false, "lt": false}), vec![b("EXPIREAT"), kb, b(&ts.to_string())])
+        }
+        2 => (json!({"op": "EXPIRE", "k": k, "ms": dl - now as i64, "nx": false, "xx": false, "gt": false, "lt": false}), vec![b("PEXPIREAT"), kb, b(&abs_ms.to_string())]),
+        3 => {
+            let v = gen.val();
+            let ts = abs_ms.max(now as i64 + e_ms).div_euclid(1000) + 2;
+            let px = ts * 1000 - e_ms - now as i64; // > 0
+            (json!({"op": "SET", "k": k, "v": v, "ex": -1, "px": px, "nx": false, "xx": false, "get": false, "keepttl": false}), vec![b("SET"), kb, v, b("EXAT"), b(&ts.to_string())])
+        }
+        4 => {
+            let v = gen.val();
+            let t = abs_ms.max(now as i64 + e_ms) + 7;
+            (json!({"op": "SET", "k": k, "v": v, "ex": -1, "px": t - e_ms - now as i64, "nx": false, "xx": false, "get": false, "keepttl": false}), vec![b("SET"), kb, v, b("PXAT"), b(&t.to_string())])
+        }
+        _ => {
+            let ms = gen.rng.gen_bool(0.5);
+            (json!({"op": "EXPIRETIME", "k": k, "ms": ms, "e": e_ms}), vec![b(if ms { "PEXPIRETIME" } else { "EXPIRETIME" }), kb])
+        }
+    }
+}
+
 pub fn run_one_via(run: usize, gen: &mut Gen, len: usize, vias: &[&str], out: &mut Out) {
     let mut ex = CommandExecutor::new();
+    // every third run lives on a node whose start epoch is not a whole second
+    let e_ms: i64 = [0i64, 1_000_000, 1_000_750][run % 3];
+    ex.set_simulation_start_epoch_ms(e_ms);
     let mut now: u64 = 1000;
     out.emit(&json!({"a": "reset", "run": run}));
     let mut deadlines: Vec<u64> = Vec::new();
@@ -462,7 +501,7 @@ pub fn run_one_via(run: usize, gen: &mut Gen, len: usize, vias: &[&str], out: &m
             }
             _ => now += 100_000,
         }
-        let (c, argv) = gen.command();
+        let (c, argv) = if e_ms != 0 && gen.rng.gen_range(0..6) == 0 { abs_command(gen, now, e_ms) } else { gen.command() };
         let via = vias[gen.rng.gen_range(0..vias.len())];
         let s = step_via(&mut ex, run, now, &c, &argv, via, out);
         for e in s.as_array().unwrap() {
@@ -497,10 +536,55 @@ pub fn replay_one_via(run: usize, steps: &[Value], vias: &[&str], out: &mut Out)
     }
 }
 
+/// Many deadlines coming due between two commands (the active-expiry pass behind set_time).
+fn mass_case(run: usize, n: usize, ttl: u64, jump: u64, out: &mut Out) {
+    let mut ex = CommandExecutor::new();
+    ex.set_time(VirtualTime::from_millis(1000));
+    let r = catch(|| {
+        for i in 0..n {
+            let _ = ex.execute(&parse_argv(&vec![b("SET"), b(&format!("m:{i}")), b("v"), b("PX"), b(&ttl.to_string())]).unwrap());
+        }
+        let _ = ex.execute(&parse_argv(&vec![b("SET"), b("keep"), b("v")]).unwrap());
+        ex.set_time(VirtualTime::from_millis(1000 + jump));
+        let dbsize = match ex.execute(&parse_argv(&vec![b("DBSIZE")]).unwrap()) { RespValue::Integer(x) => x, _ => -1 };
+        let mut alive = 0;
+        let mut persistent = 0;
+        for i in (0..n).step_by((n / 64).max(1)) {
+            if let RespValue::BulkString(Some(_)) = ex.execute(&parse_argv(&vec![b("GET"), b(&format!("m:{i}"))]).unwrap()) {
+                alive += 1;
+            }
+            if let RespValue::Integer(-1) = ex.execute(&parse_argv(&vec![b("TTL"), b(&format!("m:{i}"))]).unwrap()) {
+                persistent += 1;
+            }
+        }
+        // an hour later
+        ex.set_time(VirtualTime::from_millis(1000 + jump + 3_600_000));
+        let later = match ex.execute(&parse_argv(&vec![b("DBSIZE")]).unwrap()) { RespValue::Integer(x) => x, _ => -1 };
+        (dbsize, alive, persistent, later, ex.get_data().len())
+    });
+    out.emit(&json!({"a": "reset", "run": run}));
+    match r {
+        Ok((dbsize, alive, persistent, later, held)) => out.emit(&json!({"a": "mass", "run": run, "n": n, "ttl": ttl, "jump": jump, "dbsize": dbsize, "alive": alive, "persistent": persistent, "later": later, "held": held})),
+        Err(p) => out.emit(&json!({"a": "mass", "run": run, "n": n, "ttl": ttl, "jump": jump, "dbsize": -1, "alive": -1, "persistent": -1, "later": -1, "held": -1, "panic": p})),
+    }
+}
+
 pub fn main(args: &[String]) -> i32 {
     let a = Args::parse(args);
     quiet_panics();
     let mut out = Out::create(&a.str("out", "ks_trace.ndjson"));
+    if a.pos.first().map(|s| s.as_str()) == Some("mass") {
+        let mut run = 0;
+        let sizes: Vec<usize> = if a.str("tier", "quick") == "thorough" { vec![10, 1000, 1024, 1025, 1500, 5000, 20000, 100000] } else { vec![10, 1024, 1025, 1500, 5000] };
+        for n in sizes {
+            for (ttl, jump) in [(5000u64, 60_000u64), (5000, 4999), (5000, 5000)] {
+                run += 1;
+                mass_case(run, n, ttl, jump, &mut out);
+            }
+        }
+        println!("{{\"events\": {}}}", out.finish());
+        return 0;
+    }
     match a.pos.first().map(|s| s.as_str()) {
         Some("replay") => {
             for (i, scn) in read_ndjson(&a.pos[1]).iter().enumerate() {
